@@ -428,6 +428,18 @@ def req_name(reqtext):
     return reqtext.strip('"')
 
 
+def add_salt(text, key):
+    """append the token salt to the SCEN line of a scenario (two of three scenarios get a non-zero one, derived from the label)"""
+    import zlib
+    first, _, rest = text.partition("\n")
+    parts = first.split()
+    if len(parts) != 2:
+        return text
+    h = zlib.crc32((parts[1] + ":" + key).encode())
+    salt = 0 if h % 3 == 0 else (h // 3) % 96
+    return "%s %s %d\n%s" % (parts[0], parts[1], salt, rest)
+
+
 def run_grid(ctx, scen_sets, obs_mask, prop, chunk=None, timeout=240, variant="hooks", env=None, tag="", keep_traces=None, exec_nproc=None, driver="grid_replay.cpp", own_all=False, validate=True, identical_to=None):
     """scen_sets: list of (label, [scenario text]).  Executes on the real library, validates with TLC,
     reports rejections that concern `prop`; others are counted as foreign (and examined by their own check)."""
@@ -442,7 +454,7 @@ def run_grid(ctx, scen_sets, obs_mask, prop, chunk=None, timeout=240, variant="h
         for ci in range(0, len(scens), chunk):
             sp = os.path.join(wd, "%s-%d.scen" % (label, ci))
             tp = os.path.join(wd, "%s-%d.ndjson" % (label, ci))
-            open(sp, "w").write("".join(scens[ci:ci + chunk]))
+            open(sp, "w").write("".join(add_salt(t, prop) for t in scens[ci:ci + chunk]))
             files.append((label, sp, tp))
 
     crashes = []
@@ -569,6 +581,8 @@ def run_grid(ctx, scen_sets, obs_mask, prop, chunk=None, timeout=240, variant="h
             sig = "%s:%s:%s:%s%s" % (ev.get("e", "?"), name, st.get("fam", "?"), sig_detail(ev, rj), sig_suffix(ev, (rj["raw_req"] or [""])[0]))
             if name == "obs-nodal" and ev.get("e") in ("loadc", "finish") and prop == "C09":
                 owner = "C09"         # the surrogate of a constructed grid differs from the one-batch surrogate: C01 and C09 both own it
+            if name == "need" and owner == "C08" and ev.get("e") in ("surp", "surpl") and prop == "C07":
+                owner = "C07"         # a surplus refinement under level limits that does not propose the documented children: C07 and C08 both own it
             if own_all:
                 owner = prop          # every state in these traces was produced by the front end under test
             if owner != prop:
